@@ -64,13 +64,19 @@ def _symex_job(args):
                         o['smt2_lite'] = s2.to_smt2()
                         # "mid" variant: additionally the small quantified assumptions (loop invariants about the
                         # trace, snapshots ...) but not the large ones (whole-table class invariants)
-                        mid = [f for f in ob.pc if not has_user_quantifier(f) or term_size(f, 121) <= 120]
-                        if len(mid) != len(lite) and len(mid) != len(ob.pc):
-                            s3 = z3.Solver()
-                            for f in mid:
-                                s3.add(f)
-                            s3.add(z3.Not(ob.goal))
-                            o['smt2_mid'] = s3.to_smt2()
+                        prev = len(lite)
+                        mids = []
+                        for limit in (120, 260, 600):
+                            mid = [f for f in ob.pc if not has_user_quantifier(f) or term_size(f, limit + 1) <= limit]
+                            if len(mid) != prev and len(mid) != len(ob.pc):
+                                s3 = z3.Solver()
+                                for f in mid:
+                                    s3.add(f)
+                                s3.add(z3.Not(ob.goal))
+                                mids.append(s3.to_smt2())
+                                prev = len(mid)
+                        if mids:
+                            o['smt2_mid'] = mids
                 o['smt2'] = s.to_smt2()
                 o['status'] = None
             out['obligations'].append(o)
